@@ -224,7 +224,7 @@ def perms(names):
 # =========================================================================== feature matrix M1
 P_KINDS = ('sleep', 'raise', 'sync_raise', 'sync_ret', 'ff', 'ff_raise', 'await', 'await_then', 'sleep_ff', 'ff_await', 'ff_awaitL_awaitC', 'raise_chained')
 C_KINDS = ('ret', 'sleep', 'raise', 'two', 'awaitG', 'ffG')
-WILD = ('none', 'A', 'B-only')
+WILD = ('none', 'A', 'B-only', 'busmethod+decoys')
 MAINS = ('await', 'redispatch')
 TIMEOUTS = ('60', 'None')
 
@@ -278,6 +278,10 @@ def matrix1(par, ph, ch, wild, mainkind, timeout):
     buses = ['A']
     actors = {}
     reals = {'d1': D, 'd2': ['0', '1/5'], 'd3': D}
+    decoys = {}
+    if wild == 'busmethod+decoys':
+        handlers.append(['A', 'P', 'hBusMethod', [['ret', 'bm']], {'bus_method': True}])
+        decoys = {'A': 2}
     if wild == 'A':
         handlers.append(['A', '*', 'hW', [['ret', 'w']]])
     elif wild == 'B-only':
@@ -290,7 +294,7 @@ def matrix1(par, ph, ch, wild, mainkind, timeout):
         main += [['idle', 'A'], ['redispatch', 'A', 'P1']]
     main += [['idle', b] for b in buses] + [['obs_all', 'end']]
     cfg = dict(buses=buses, order=buses, parallel=['A'] if par else [], reals=reals, handlers=handlers, main=main, actors=actors,
-               horizon=6, timeouts={'P1': None if timeout == 'None' else timeout},
+               horizon=6, timeouts={'P1': None if timeout == 'None' else timeout}, decoys=decoys,
                features=dict(par=par, ph=list(ph), ch=ch, wild=wild, main=mainkind, timeout=timeout))
     # drop unused reals (keeps the domain minimal)
     used = json_dumps(cfg['handlers']) + json_dumps(actors)
@@ -362,6 +366,8 @@ def matrix1_rows(tier):
         (False, ('ff_awaitL_awaitC', 'sleep'), 'ffG', 'none', 'await', '60'),
         (False, ('raise_chained', 'sleep'), 'ret', 'none', 'await', '60'),
         (False, ('await', 'sleep'), 'ffG', 'none', 'await', '60'),
+        (False, ('await', 'sleep'), 'sleep', 'busmethod+decoys', 'await', '60'),
+        (True, ('await_then', 'sleep'), 'ret', 'busmethod+decoys', 'redispatch', '60'),
     ]
     rows = pairwise(doms, must)
     if tier == 'thorough':
@@ -650,12 +656,16 @@ def par_parent_serial_child(order=('A', 'B')):
     return dict(buses=['A', 'B'], order=list(order), parallel=['A'], reals={'d1': ['0', '3/10'], 'd2': ['0', '3/10']}, handlers=handlers, main=main, horizon=6)
 
 
-def fw_late_await(order=('A', 'B')):
+def fw_late_await(order=('A', 'B'), target_handlers=True):
     """A forwards to B; a handler of A registered after the forward awaits a child, so the forwarded event is processed on B
     (inline) while that handler of A is still running: the event is in flight on two buses at once."""
     cfg = forward_chain(2, topo='chain', order=order)
     cfg['late_handlers'] = [['A', '*', 'hLate', [['only', 'P'], ['dispawait', 'A', 'C', 'C_{inv}'], ['sleep', 'd1'], ['ret', 'late']]]]
     cfg['handlers'] += [['A', 'C', 'hCA', [['ret', 'c']], {'sync': True}], ['B', 'C', 'hCB', [['ret', 'c']], {'sync': True}]]
+    if not target_handlers:
+        cfg['handlers'] = [h for h in cfg['handlers'] if h[0] != 'B']
+    # an unrelated root queued behind P1 on A
+    cfg['main'] = [['root', 'A', 'P', 'P1'], ['root', 'A', 'L', 'L1']] + cfg['main'][1:]
     return cfg
 
 
@@ -706,3 +716,24 @@ def timeout_during_wal(T='1/4'):
     main = [['root', 'A', 'P', 'P1'], ['idle', 'A'], ['root', 'A', 'L', 'L1'], ['idle', 'A'], ['obs_all', 'end']]
     return dict(buses=['A'], wal=['A'], wal_io='dw', reals={'d1': ['0', hi], 'dw': ['0', hi]}, handlers=handlers, main=main, horizon=6,
                 timeouts={'P1': T}, T=T, m2=True)
+
+
+
+def deep4(mode='await', wild_raise=False):
+    """four nesting levels with a different handler on every level (no recursion at all); optionally a wildcard handler that
+    raises on every level."""
+    step = (lambda b, c, l: ['dispawait', b, c, l]) if mode == 'await' else (lambda b, c, l: ['disp', b, c, l])
+    handlers = [['A', 'P', 'hP', [step('A', 'C', 'C1'), ['ret', 'p']]], ['A', 'C', 'hC', [step('A', 'G', 'G1'), ['ret', 'c']]],
+                ['A', 'G', 'hG', [step('A', 'L', 'L1'), ['ret', 'g']]], ['A', 'L', 'hL', [['sleep', 'd1'], ['ret', 'l']]]]
+    if wild_raise:
+        handlers.append(['A', '*', 'hWR', [['raise', 'ValueError']], {'sync': True}])
+    main = [['root', 'A', 'P', 'P1'], ['await', 'P1'], ['idle', 'A'], ['obs_all', 'end']]
+    return dict(buses=['A'], reals={'d1': ['0', '1/5']}, handlers=handlers, main=main, horizon=5)
+
+
+def late_first_use(order=('A', 'B', 'C')):
+    """A and C are warm; while A is in the middle of a slow handler, main uses bus B for the very first time."""
+    handlers = [['A', 'P', 'hA', [['sleep', 'd1'], ['ret', 'a']]], ['B', 'X', 'hB', [['sleep', 'd2'], ['ret', 'b']]], ['C', 'L', 'hC', [['sleep', 'd2'], ['ret', 'c']]]]
+    main = [['root', 'A', 'P', 'P0'], ['root', 'C', 'L', 'L0'], ['idle', 'A'], ['idle', 'C'], ['root', 'A', 'P', 'P1'], ['sleep', 't1'], ['root', 'B', 'X', 'X1'],
+            ['idle', 'A'], ['idle', 'B'], ['root', 'A', 'P', 'P2'], ['root', 'C', 'L', 'L2'], ['idle', 'A'], ['idle', 'C'], ['obs_all', 'end']]
+    return dict(buses=['A', 'B', 'C'], order=list(order), reals={'d1': ['1/10', '2/5'], 'd2': ['0', '1/5'], 't1': ['0', '3/10']}, handlers=handlers, main=main, horizon=8)
